@@ -1885,6 +1885,10 @@ func (s *scanner) addEntryPoints(entryPoints []EntryPoint) []graph.EntryPoint {
 		return nil
 	}
 
+	// The loop below modifies the entry points. Make a copy first so that this
+	// doesn't modify the caller's entry points, which are reused for rebuilds.
+	entryPoints = append([]EntryPoint{}, entryPoints...)
+
 	// Check each entry point ahead of time to see if it's a real file
 	entryPointAbsResolveDir := s.fs.Cwd()
 	for i := range entryPoints {
